@@ -479,14 +479,7 @@ class ASTTypeBuilder:
         def _fields() -> List[InputField]:
             field_names = set(f.name for f in input_object_type.fields)
             fields = [
-                InputField(
-                    f.name,
-                    self.extend_type(f.type),
-                    default_value=f._default_value,
-                    description=f.description,
-                    node=f.node,
-                )
-                for f in input_object_type.fields
+                self._extend_input_field(f) for f in input_object_type.fields
             ]
 
             for extension_node in extensions:
@@ -498,7 +491,11 @@ class ASTTypeBuilder:
                             [ext_field],
                         )
                     field_names.add(ext_field.name.value)
-                    fields.append(self._build_input_field(ext_field))
+                    fields.append(
+                        self._extend_input_field(
+                            self._build_input_field(ext_field)
+                        )
+                    )
 
             return fields
 
@@ -507,6 +504,15 @@ class ASTTypeBuilder:
             description=input_object_type.description,
             fields=_fields,
             nodes=input_object_type.nodes + extensions,  # type: ignore
+        )
+
+    def _extend_input_field(self, field: InputField) -> InputField:
+        return InputField(
+            field.name,
+            self.extend_type(field.type),
+            default_value=field._default_value,
+            description=field.description,
+            node=field.node,
         )
 
     def _extend_scalar_type(self, scalar_type: ScalarType) -> ScalarType:
